@@ -668,6 +668,14 @@ func (x *textract) prio(v ssa.Value) string {
 func (x *textract) factsAtBlock(b *ssa.BasicBlock, base *tfacts) *tfacts {
 	f := base.clone()
 	for _, ft := range factsAt(b) {
+		x.addFact(f, ft)
+	}
+	return x.finishBlockFacts(b, f)
+}
+
+// addFact translates one atomic guard into order / priority / emptiness knowledge.
+func (x *textract) addFact(f *tfacts, ft Fact) {
+	{
 		switch c := ft.Cond.(type) {
 		case *ssa.BinOp:
 			// comparator result against zero
@@ -689,7 +697,7 @@ func (x *textract) factsAtBlock(b *ssa.BasicBlock, base *tfacts) *tfacts {
 					}
 					// two-sign knowledge (<=, >=) needs no fact for our rules; the third test narrows it
 				}
-				continue
+				return
 			}
 			// priority comparison
 			p1, p2 := x.prio(c.X), x.prio(c.Y)
@@ -708,7 +716,7 @@ func (x *textract) factsAtBlock(b *ssa.BasicBlock, base *tfacts) *tfacts {
 				case (lt && !ft.Pol) || (ge && ft.Pol): // p1 >= p2
 					f.prioLE[[2]string{p2, p1}] = true
 				}
-				continue
+				return
 			}
 			// node == nil
 			if isNilConst(c.Y) && (c.Op == token.EQL || c.Op == token.NEQ) {
@@ -734,6 +742,9 @@ func (x *textract) factsAtBlock(b *ssa.BasicBlock, base *tfacts) *tfacts {
 			}
 		}
 	}
+}
+
+func (x *textract) finishBlockFacts(b *ssa.BasicBlock, f *tfacts) *tfacts {
 	// the two-step narrowing of a three-way comparison: c == 0 false and c < 0 false ⇒ c > 0
 	x.narrowThreeWay(b, f)
 	// a block entered from several arms of an ||-chain (`if t.isEmpty() || node == nil`):
